@@ -607,3 +607,91 @@ Proof.
   cbn [forallb] in H. apply andb_prop in H. destruct H as [Hp Hl].
   apply IH; [|exact Hl]. apply byte_mem_set; [exact Hm | apply N.ltb_lt; exact Hp].
 Qed.
+
+(* ---------------------------------------------------------------------------------------------------- *)
+(* the OAM addresses read through PPURead while a pixel is rendered lie in FE00-FE9F (so does the value left in
+   OAM.ppuLastAccess) *)
+
+Definition oam_addr (a : N) : Prop := 65024 <= a < 65184.
+
+Lemma obj_addr_range i k : i < 40 -> k < 4 -> oam_addr (add16 (add16 65024 (u16 (i * 4))) k).
+Proof. intros Hi Hk. unfold oam_addr, add16, u16. lia. Qed.
+
+Lemma obj_addr0_range i : i < 40 -> oam_addr (add16 65024 (u16 (i * 4))).
+Proof. intros Hi. unfold oam_addr, add16, u16. lia. Qed.
+
+Lemma sprite_scan_reads s x y :
+  forall l st st', Forall (fun e => fst e < 40) l -> Forall oam_addr (reads st) ->
+  sprite_scan s x y l st = Ok st' -> Forall oam_addr (reads st').
+Proof.
+  induction l as [|[i ov] l IH]; intros st st' HF Hr E.
+  - cbn [sprite_scan] in E. injection E as <-. exact Hr.
+  - inversion HF as [|? ? Hi HF']; subst. cbn [fst] in Hi.
+    cbn [sprite_scan] in E. destruct ov; cbn [negb] in E; [|eapply IH; eassumption].
+    destruct (oam_at s (add16 (add16 65024 (u16 (i * 4))) 1)) as [sx| |]; cbn [bind] in E; try discriminate.
+    destruct ((sx <=? u8 (x + 8)) && (x <? sx)).
+    + destruct (oam_at s (add16 65024 (u16 (i * 4)))) as [sy| |]; cbn [bind] in E; try discriminate.
+      destruct (oam_at s (add16 (add16 65024 (u16 (i * 4))) 2)) as [tn| |]; cbn [bind] in E; try discriminate.
+      destruct (oam_at s (add16 (add16 65024 (u16 (i * 4))) 3)) as [at_| |]; cbn [bind] in E; try discriminate.
+      destruct (sprite_tile_pixel s x y sx sy tn at_) as [p| |]; cbn [bind] in E; try discriminate.
+      assert (Hr' : Forall oam_addr (add16 (add16 65024 (u16 (i * 4))) 3 :: add16 (add16 65024 (u16 (i * 4))) 2
+                                     :: add16 65024 (u16 (i * 4)) :: add16 (add16 65024 (u16 (i * 4))) 1 :: reads st)).
+      { constructor; [apply obj_addr_range; [exact Hi | lia]|].
+        constructor; [apply obj_addr_range; [exact Hi | lia]|].
+        constructor; [apply obj_addr0_range; exact Hi|].
+        constructor; [apply obj_addr_range; [exact Hi | lia] | exact Hr]. }
+      destruct (0 <? p).
+      * injection E as <-. exact Hr'.
+      * eapply IH; [exact HF' | | exact E]. exact Hr'.
+    + eapply IH; [exact HF' | | exact E]. cbn [reads].
+      constructor; [apply obj_addr_range; [exact Hi | lia] | exact Hr].
+Qed.
+
+Lemma render_pixel_full_reads s ov x y r :
+  render_pixel_full s ov x y = Ok r -> Forall oam_addr (reads (snd r)).
+Proof.
+  unfold render_pixel_full. intros E.
+  destruct (spritesEnabled s) eqn:Esp.
+  - destruct (sprite_scan s x y (sprite_list ov) ss_init) as [st| |] eqn:Est; cbn [bind] in E; try discriminate.
+    assert (Hst : Forall oam_addr (reads st)).
+    { eapply sprite_scan_reads; [apply sprite_list_lt | | exact Est]. constructor. }
+    revert E. cbv zeta.
+    repeat match goal with
+           | |- context [match ?c with Ok _ => _ | Crash _ => _ | Exit => _ end] => fail
+           | |- (if ?c then _ else _) = _ -> _ => destruct c
+           | |- bind ?c _ = _ -> _ => destruct c; cbn [bind]
+           end; intros E; try discriminate; injection E as <-; exact Hst.
+  - cbn [bind] in E. revert E. cbv zeta. cbn [andb].
+    repeat match goal with
+           | |- (if ?c then _ else _) = _ -> _ => destruct c
+           | |- bind ?c _ = _ -> _ => destruct c; cbn [bind]
+           end; intros E; try discriminate; injection E as <-; constructor.
+Qed.
+
+Theorem render_pixel_oam_reads_range s ov x y rs :
+  render_pixel_oam_reads s ov x y = Ok rs -> Forall oam_addr rs.
+Proof.
+  unfold render_pixel_oam_reads. intros E.
+  destruct (render_pixel_full s ov x y) as [r| |] eqn:Er; cbn [bind] in E; try discriminate.
+  injection E as <-. apply Forall_rev. eapply render_pixel_full_reads. exact Er.
+Qed.
+
+Theorem render_pixel_last_access_range s ov x y a :
+  render_pixel_last_access s ov x y = Ok (Some a) -> oam_addr a.
+Proof.
+  unfold render_pixel_last_access. intros E.
+  destruct (render_pixel_full s ov x y) as [r| |] eqn:Er; cbn [bind] in E; try discriminate.
+  injection E as E. pose proof (render_pixel_full_reads s ov x y r Er) as H.
+  destruct (reads (snd r)) as [|a' l]; cbn [hd_error] in E; [discriminate|].
+  injection E as <-. inversion H; assumption.
+Qed.
+
+(* the last access is the last element of the read sequence *)
+Lemma last_access_is_last s ov x y :
+  render_pixel_last_access s ov x y =
+  (do rs <- render_pixel_oam_reads s ov x y; Ok (hd_error (rev rs))).
+Proof.
+  unfold render_pixel_last_access, render_pixel_oam_reads.
+  destruct (render_pixel_full s ov x y) as [r| |]; cbn [bind]; try reflexivity.
+  rewrite rev_involutive. reflexivity.
+Qed.
